@@ -377,6 +377,11 @@ static var List_Iter_Init(var self) {
 }
 
 static var List_Iter_Next(var self, var curr) {
+#if CELLO_NULL_CHECK == 1
+  if (curr is NULL) {
+    return throw(ValueError, "Received NULL as iteration position");
+  }
+#endif
   struct List* l = self;
   curr = *List_Next(l, curr);
   return curr ? curr : Terminal;
@@ -389,6 +394,11 @@ static var List_Iter_Last(var self) {
 }
 
 static var List_Iter_Prev(var self, var curr) {
+#if CELLO_NULL_CHECK == 1
+  if (curr is NULL) {
+    return throw(ValueError, "Received NULL as iteration position");
+  }
+#endif
   struct List* l = self;
   curr = *List_Prev(l, curr);
   return curr ? curr : Terminal;
